@@ -536,6 +536,40 @@ func (r *locksetRun) analyse(info *lockFnInfo, final bool) (changed bool) {
 				changed = true
 			}
 		}
+		// a func-typed parameter of f forwarded to a callee that invokes it under a lock: f invokes it under that lock too
+		if ci != nil && callee != nil && f.Decl != nil && !async {
+			sig := callee.Type().(*types.Signature)
+			for ai, a := range call.Args {
+				pv, ok := f.ObjOf(a).(*types.Var)
+				if !ok || ai >= sig.Params().Len() {
+					continue
+				}
+				d, isParam := f.SingleDef(pv)
+				if !isParam || d.kind != defParam {
+					continue
+				}
+				pl, ok := ci.paramLocks[sig.Params().At(ai)]
+				if !ok {
+					continue
+				}
+				rel := lockState{}
+				for k, m := range pl {
+					rel[translate(k)] = m
+				}
+				for k, m := range st {
+					if strings.HasPrefix(k, "recv.") && rel[k] < m {
+						rel[k] = m
+					}
+				}
+				if prev, ok := info.paramLocks[pv]; ok {
+					rel = meet(prev, rel)
+				}
+				if prev, ok := info.paramLocks[pv]; !ok || !equalState(prev, rel) {
+					info.paramLocks[pv] = rel
+					changed = true
+				}
+			}
+		}
 		// immediately invoked literal
 		if lit, ok := Unparen(call.Fun).(*ast.FuncLit); ok && !async {
 			if li := r.infos[f.LitFn0(lit)]; li != nil && !equalState(st, li.entry) {
